@@ -175,6 +175,29 @@ func rhp2Framing(rec *frec, o fobj, r *rand.Rand, nRandom int, par func(func()))
 	if k > 0 {
 		shapes = append(shapes, append([]int(nil), o.rnd...))
 	}
+	// objects with a byte-granular field: the object lengths at the boundaries of the framing rules and a few more
+	// of the lengths the model walks (FrameSizes.tla)
+	for j := 0; j < k; j++ {
+		if s[j] != 1 {
+			continue
+		}
+		base := fixed
+		if o.dir == "resp" {
+			base++
+		}
+		ps := append([]int(nil), edgeSizes...)
+		for i := 0; i < 4 && len(windowSizes) > 0; i++ {
+			ps = append(ps, windowSizes[r.Intn(len(windowSizes))])
+		}
+		for _, p := range ps {
+			if p >= base {
+				n := zeros(k)
+				n[j] = p - base
+				shapes = append(shapes, n)
+			}
+		}
+		break
+	}
 	for _, n := range shapes {
 		size := fixed
 		for j := range n {
@@ -286,6 +309,12 @@ func rhp3Framing(rec *frec, o fobj, r *rand.Rand, nRandom int, open func() *rhp3
 			emit(n, uint64(size-1016)) // the message exactly fills limit + framing allowance
 			emit(n, uint64(size-1017)) // one byte too long
 			emit(n, uint64(r.Intn(size-1016)))
+			// every other distance from the limit the model walks (EDGE records of FrameSizes.tla)
+			for _, d := range edgeSlacks {
+				if d != 0 && d != -1 && size-1016+d >= 0 {
+					emit(n, uint64(size-1016+d))
+				}
+			}
 		} else {
 			emit(n, 0)
 		}
